@@ -136,8 +136,22 @@ fn check_partition(r: &mut Report, name: &str, stream: &[u8], rec_len: usize, ex
             f
         })
         .collect();
+    // the same segments as they look in a whole connection: after the SYN, and with FIN on the segment that carries the
+    // last byte (a client that sends its hello and half-closes); the result must not depend on either
+    let shape = (cuts.iter().sum::<usize>() + cuts.len()) % 3;
+    let shape_name = ["data only", "after SYN", "after SYN, FIN on the last segment"][shape];
+    let mut frames = frames;
+    if shape == 2 {
+        if let Some(l) = frames.last_mut() {
+            let off = if l[0] >> 4 == 6 { 40 } else { (l[0] & 0x0f) as usize * 4 };
+            l[off + 13] |= 0x01;
+        }
+    }
     let got = guarded(|| {
         let mut a = TlsSeq::new(8);
+        if shape >= 1 {
+            let _ = a.feed(&pkt::build(&Spec { flags: crate::gen::pkt::SYN, seq: 999, sport: 40001, dport: 443, opts: vec![2, 4, 5, 0xb4], ..Spec::default() }));
+        }
         frames.iter().map(|f| a.feed(f)).collect::<Vec<TlsRes>>()
     });
     match got {
@@ -159,7 +173,7 @@ fn check_partition(r: &mut Report, name: &str, stream: &[u8], rec_len: usize, ex
                 } else {
                     "result-differs-from-single-segment"
                 };
-                r.dev(format!("C08/packets/{class}"), class, || json!({"stream": name, "cuts": cuts, "route": "packets", "expected_on_segment": completing, "got_on_segments": gi}));
+                r.dev(format!("C08/packets/{class}"), class, || json!({"stream": name, "cuts": cuts, "route": "packets", "shape": shape_name, "expected_on_segment": completing, "got_on_segments": gi}));
             }
         }
     }
@@ -293,9 +307,26 @@ pub fn run(thorough: bool) -> Outcome {
             other => total.dev("C08/analyze_pcap/result-count-or-content", "analyze_pcap", || json!({"stream": name, "cuts": [cut], "route": "analyze_pcap", "got": format!("{:?}", other.map(|v| v.len()))})),
         }
     }
+    // a slow client: the reader of a flow lives 20 s of REAL time, so two segments 150 ms apart are one ClientHello
+    {
+        let cut = b.len() / 2;
+        let f1 = pkt::build(&Spec { flags: ACK | PSH, seq: 1000, ack: 1, payload: b[..cut].to_vec(), sport: 40001, dport: 443, ..Spec::default() });
+        let f2 = pkt::build(&Spec { flags: ACK | PSH, seq: 1000 + cut as u32, ack: 1, payload: b[cut..].to_vec(), sport: 40001, dport: 443, ..Spec::default() });
+        total.exec(2);
+        let got = guarded(|| {
+            let mut a = TlsSeq::new(8);
+            let x = a.feed(&f1);
+            std::thread::sleep(std::time::Duration::from_millis(150));
+            (x, a.feed(&f2))
+        });
+        match got {
+            Ok((x, y)) if x.is_empty() && y.ja4_r.as_deref() == exp.as_ref().map(|e| e.ja4.1.as_str()) => {}
+            other => total.dev("C08/packets/slow-connection", "slow", || json!({"stream": name, "cuts": [cut], "route": "packets", "detail": "segments 150 ms of real time apart", "got": format!("{:?}", other.map(|(x, y)| (x.ja4, y.ja4)))})),
+        }
+    }
     Outcome {
         report: total,
-        rule: "every in-order partition with first segment >= 5 bytes: all 2-partitions of every stream (7 hellos up to the 16 KiB record, one whose random, session id and an extension body contain bytes that read like handshake record headers, hello followed by CCS+application data, 4 non-hello records), all 3-partitions of streams <= 600 B (<= 2000 B thorough), field-boundary 3-partitions of long hellos, the all-1-byte partition, all k-partitions (k <= 4, 6 thorough) of the minimal hello; reader API and packet-level pipeline (fresh flow table), analyze_pcap on every 2-partition of the typical hello; distinct = distinct (stream, per-segment result pattern)".into(),
+        rule: "every in-order partition with first segment >= 5 bytes: all 2-partitions of every stream (7 hellos up to the 16 KiB record, one whose random, session id and an extension body contain bytes that read like handshake record headers, hello followed by CCS+application data, 4 non-hello records), all 3-partitions of streams <= 600 B (<= 2000 B thorough), field-boundary 3-partitions of long hellos, the all-1-byte partition, all k-partitions (k <= 4, 6 thorough) of the minimal hello; reader API and packet-level pipeline (fresh flow table), analyze_pcap on every 2-partition of the typical hello; packet route also after a SYN and with FIN on the last segment; one hello with 150 ms of real time between its segments; distinct = distinct (stream, per-segment result pattern)".into(),
         exhaustive: true,
         bounds: json!({"streams": ss.iter().map(|x| (x.0.clone(), x.1.len())).collect::<Vec<_>>(), "max_parts_minimal_hello": maxk + 1}),
     }
